@@ -133,7 +133,8 @@ def main(argv):
     # 4. cases
     chunks = mod.chunks(tier, seed)
     agg = core.run_chunks(mod.__name__, chunks)
-    oracle = [r for r in agg["fail"] if r["verdict"]["status"] == "oracle"]
+    known_hits = [r for r in agg["fail"] if "known" in r]
+    oracle = [r for r in agg["fail"] if r["verdict"]["status"] == "oracle" and "known" not in r]
     corr = [r for r in agg["fail"] if r["verdict"]["status"] in ("corr", "error")]
     searched = 0
     if not oracle and (broken or corr):
@@ -145,6 +146,12 @@ def main(argv):
 
     rc = 0
     nviol = 0
+    # listed known findings: one line per finding, never a violation
+    for trig in sorted({r["known"] for r in known_hits}):
+        rec = next(r for r in known_hits if r["known"] == trig)
+        ent = next(k for k in known if k.get("trigger") == trig and k["property"] == prop)
+        path = core.write_replay(prop, {"property": prop, "kind": "known-finding", "trigger": trig, "case": rec["case"], "why": rec["verdict"]["why"], "impl_observation": rec["obs"], "python_snippet": snippet_of(mod, rec["case"])})
+        print(f"KNOWN-FINDING: property={prop} {ent['text']} (replay={path})")
     if oracle:
         seen = set()
         for rec in oracle:
